@@ -35,6 +35,20 @@ type Chooser interface {
 	Choose(kind Kind, n int, preemptive bool) int
 }
 
+// choose asks the chooser and folds the answer into the choosing thread's history where the
+// choice is made by a thread (op/env/select); thread and clock choices are scheduling decisions.
+func (s *Sched) choose(kind Kind, n int, preemptive bool, from *Thread) int {
+	s.curKey = s.StateKey(kind, from)
+	k := s.chooser.Choose(kind, n, preemptive)
+	if kind == KOp || kind == KEnv || kind == KSelect {
+		s.fold(uint64(k) + 101)
+	}
+	return k
+}
+
+// CurKey is the state key of the choice point being answered (valid inside Chooser.Choose).
+func (s *Sched) CurKey() uint64 { return s.curKey }
+
 type abortT struct{}
 
 var abortSentinel = &abortT{}
@@ -51,6 +65,12 @@ type Thread struct {
 	waitQ  bool // pending op is WaitQuiescent
 	parked bool
 	exited chan struct{}
+	Parent *Thread
+	// happens-before hashing (state caching in the explorer)
+	stable uint64 // identity that does not depend on the interleaving
+	last   uint64 // hash of the thread's latest event (its whole causal past)
+	nev    uint64
+	nspawn uint64
 }
 
 func (t *Thread) String() string {
@@ -87,6 +107,7 @@ type Config struct {
 	Trace       bool
 	OnQuiescent func(s *Sched) // called (controller context) whenever no thread is enabled, before time advances
 	Horizon     int64          // virtual time horizon; timers beyond it never fire (0 = none)
+	Events      bool           // keep the event log
 }
 
 // Result of one execution.
@@ -118,7 +139,37 @@ type Sched struct {
 	ended    bool
 	objSeq   int
 	quiesces int
+	events   []Event
+	curKey   uint64
+	objLast  map[any]uint64
+	global   uint64 // hash of the latest global event (timer firing, quiescence wake-up)
 }
+
+// Event is an entry of the per-execution event log that shims and harness doubles append to; the
+// oracles compute violation signatures from it.
+type Event struct {
+	Seq    int
+	Thread int
+	Kind   string
+	A      []int
+	S      string
+}
+
+// LogEvent appends to the event log (no-op in pass-through mode or when events are off).
+func LogEvent(kind string, s string, a ...int) {
+	sc := S
+	if sc == nil || !sc.cfg.Events {
+		return
+	}
+	tid := -1
+	if sc.cur != nil && !sc.inCtl {
+		tid = sc.cur.ID
+	}
+	sc.events = append(sc.events, Event{Seq: len(sc.events), Thread: tid, Kind: kind, A: append([]int(nil), a...), S: s})
+}
+
+// Events returns the event log of the execution.
+func (s *Sched) Events() []Event { return s.events }
 
 // S is the active scheduler; nil means pass-through mode.
 var S *Sched
@@ -138,7 +189,7 @@ func Run(ch Chooser, cfg Config, main func()) *Result {
 	if cfg.MaxSteps == 0 {
 		cfg.MaxSteps = 20000
 	}
-	s := &Sched{cfg: cfg, chooser: ch, endCh: make(chan struct{}, 1), res: &Result{}}
+	s := &Sched{cfg: cfg, chooser: ch, endCh: make(chan struct{}, 1), res: &Result{}, objLast: map[any]uint64{}}
 	S = s
 	t0 := s.newThread(main)
 	t0.Label = "main"
@@ -174,6 +225,14 @@ func (s *Sched) newThread(f func()) *Thread {
 	t.en = alwaysEnabled
 	t.desc = "start"
 	t.parked = true
+	if p := s.cur; p != nil && len(s.threads) > 0 && !s.inCtl {
+		p.nspawn++
+		t.stable = mix(mix(p.stable, p.last), p.nspawn)
+	} else {
+		// main thread, or spawned by a timer action: identified by the global event and the count so far
+		t.stable = mix(mix(0x9e3779b97f4a7c15, s.global), uint64(len(s.threads)))
+	}
+	t.last = t.stable
 	s.threads = append(s.threads, t)
 	raceSpawn(func() { s.threadMain(t, f) })
 	return t
@@ -196,6 +255,9 @@ func (s *Sched) threadMain(t *Thread, f func()) {
 		r := recover()
 		t.done = true
 		t.en = nil
+		if !s.aborting {
+			s.objLast[t] = mix(s.objLast[t], t.last)
+		}
 		if s.aborting {
 			raceHandoffOut()
 			t.exited <- struct{}{}
@@ -247,7 +309,7 @@ func (s *Sched) finish() {
 // Point is a schedule point of the running thread: the pending operation is described by desc and
 // is enabled when en() is true. Point returns when the thread has been chosen to run and en()
 // holds (evaluated in the same atomic step).
-func Point(desc string, en func() bool) {
+func Point(desc string, en func() bool, objs ...any) {
 	s := S
 	if s == nil {
 		if en != nil && !en() {
@@ -255,10 +317,105 @@ func Point(desc string, en func() bool) {
 		}
 		return
 	}
-	s.point(desc, en)
+	s.point(desc, en, objs)
 }
 
-func (s *Sched) point(desc string, en func() bool) {
+func mix(a, b uint64) uint64 {
+	x := a ^ (b + 0x9e3779b97f4a7c15 + (a << 6) + (a >> 2))
+	x ^= x >> 33
+	x *= 0xff51afd7ed558ccd
+	x ^= x >> 33
+	x *= 0xc4ceb9fe1a85ec53
+	x ^= x >> 33
+	return x
+}
+
+// event folds one executed visible operation of t on objs into the happens-before hashes: the
+// event's hash covers the thread's previous event and the latest event on every object it touches
+// (all operations on one object are treated as dependent).
+func (s *Sched) event(t *Thread, objs []any) {
+	t.nev++
+	h := mix(mix(t.stable, t.nev), t.last)
+	h = mix(h, s.global)
+	for _, o := range objs {
+		if o != nil {
+			h = mix(h, s.objLast[o])
+		}
+	}
+	for _, o := range objs {
+		if o != nil {
+			s.objLast[o] = h
+		}
+	}
+	t.last = h
+}
+
+// Touch records a non-point effect of the running thread on obj (a release: Unlock, Done, a close
+// performed inside another operation): later operations on obj depend on the thread's latest event.
+func Touch(obj any) {
+	s := S
+	if s == nil || obj == nil {
+		return
+	}
+	if s.inCtl {
+		s.objLast[obj] = mix(s.objLast[obj], s.global)
+		return
+	}
+	if t := s.cur; t != nil {
+		s.objLast[obj] = mix(s.objLast[obj], t.last)
+	}
+}
+
+// Fold mixes a value the running thread obtained from its environment (a choice) into its history.
+func (s *Sched) fold(v uint64) {
+	if t := s.cur; t != nil && !s.inCtl {
+		t.nev++
+		t.last = mix(mix(t.last, t.nev), v)
+	}
+}
+
+// globalEvent makes every later event depend on everything that happened so far (timer firing).
+func (s *Sched) globalEvent(tag uint64) {
+	g := mix(s.global, tag)
+	for _, t := range s.threads {
+		g = mix(g, t.last)
+	}
+	s.global = g
+}
+
+// StateKey identifies the global state at a choice point up to commutation of independent
+// operations: the causal histories of all threads, which thread holds the baton, and the kind of
+// choice being made.
+func (s *Sched) StateKey(kind Kind, from *Thread) uint64 {
+	var hs [16]uint64
+	l := hs[:0]
+	for _, t := range s.threads {
+		v := mix(t.stable, t.last)
+		if t.done {
+			v = mix(v, 1)
+		}
+		if t.waitQ {
+			v = mix(v, 2)
+		}
+		l = append(l, v)
+	}
+	// order-independent combination over threads keyed by their stable ids (already mixed in)
+	var sum, xor uint64
+	for _, v := range l {
+		sum += v
+		xor ^= mix(v, 0x1234567)
+	}
+	k := mix(mix(sum, xor), s.global)
+	k = mix(k, uint64(kind)+17)
+	if from != nil {
+		k = mix(k, from.stable)
+	} else {
+		k = mix(k, 0xdead)
+	}
+	return mix(k, uint64(s.clock))
+}
+
+func (s *Sched) point(desc string, en func() bool, objs []any) {
 	if s.inCtl {
 		if en != nil && !en() {
 			panic(ctlBlocked{desc})
@@ -292,7 +449,11 @@ func (s *Sched) point(desc string, en func() bool) {
 		}
 	}
 	t.en = nil
-	t.waitQ = false
+	if t.waitQ {
+		t.waitQ = false
+		s.globalEvent(7)
+	}
+	s.event(t, objs)
 	if s.cfg.Trace {
 		s.res.Trace = append(s.res.Trace, Step{Thread: t.ID, Label: t.Label, Op: desc, Clock: s.clock})
 	}
@@ -342,7 +503,7 @@ func (s *Sched) pickNext(from *Thread) *Thread {
 			if len(qw) > 0 {
 				k := 0
 				if len(qw) > 1 {
-					k = s.chooser.Choose(KThread, len(qw), false)
+					k = s.choose(KThread, len(qw), false, from)
 				}
 				qw[k].waitQ = false
 				return qw[k]
@@ -365,7 +526,7 @@ func (s *Sched) pickNext(from *Thread) *Thread {
 		}
 		k := 0
 		if n > 1 {
-			k = s.chooser.Choose(KThread, n, preemptive)
+			k = s.choose(KThread, n, preemptive, from)
 		}
 		if k == len(en) { // clock pseudo-thread
 			s.fireEarliest()
@@ -392,7 +553,11 @@ func Go(f func()) *Thread {
 	if s.aborting {
 		panic(abortSentinel)
 	}
-	return s.newThread(f)
+	t := s.newThread(f)
+	if !s.inCtl {
+		t.Parent = s.cur
+	}
+	return t
 }
 
 // GoL starts a labelled thread.
@@ -424,7 +589,7 @@ func Yield() { Point("yield", nil) }
 func Join(ts ...*Thread) {
 	for _, t := range ts {
 		t := t
-		Point("join "+t.String(), func() bool { return t.done })
+		Point("join "+t.String(), func() bool { return t.done }, t)
 	}
 }
 
@@ -442,7 +607,7 @@ func WaitQuiescent() {
 	}
 	t := s.cur
 	t.waitQ = true
-	s.point("wait-quiescent", alwaysEnabled)
+	s.point("wait-quiescent", alwaysEnabled, nil)
 }
 
 // Choose is a harness-level nondeterministic choice in [0,n).
@@ -453,7 +618,7 @@ func Choose(n int) int {
 	if S == nil {
 		panic("vrt.Choose outside scheduler")
 	}
-	return S.chooser.Choose(KOp, n, false)
+	return S.choose(KOp, n, false, S.cur)
 }
 
 // ChooseSelect picks among n ready select cases.
@@ -461,7 +626,7 @@ func ChooseSelect(n int) int {
 	if n <= 1 || S == nil {
 		return 0
 	}
-	return S.chooser.Choose(KSelect, n, false)
+	return S.choose(KSelect, n, false, S.cur)
 }
 
 // EnvChoose is an environment answer in [0,n); alternatives > 0 cost a deviation.
@@ -475,7 +640,7 @@ func EnvChoose(n int) int {
 		}
 		return 0
 	}
-	return S.chooser.Choose(KEnv, n, false)
+	return S.choose(KEnv, n, false, S.cur)
 }
 
 // Aborting reports whether the execution is being unwound (shims turn into no-ops).
